@@ -136,10 +136,12 @@ func (n Number) addQuantum(i uint64) Number {
 // Less returns true if n is less than m. Panics if n and m are a mix of integer
 // and decimal.
 func (n Number) Less(m Number) bool {
+	// Negative zero is the same number as zero.
+	nNeg, mNeg := n.Negative && n.Value != 0, m.Negative && m.Value != 0
 	switch {
-	case n.Negative && !m.Negative:
+	case nNeg && !mNeg:
 		return true
-	case !n.Negative && m.Negative:
+	case !nNeg && mNeg:
 		return false
 	}
 
@@ -153,7 +155,7 @@ func (n Number) Less(m Number) bool {
 		lt = nf < mf
 	}
 
-	if n.Negative {
+	if nNeg {
 		return !lt
 	}
 	return lt
